@@ -15,7 +15,8 @@ _G = "DESIGN.md section 4"
 _NOTE = ("Trusted base: the harness (world generator, monitors, reference ledger/parent map taken from "
          "the world spec, shrinker) and CPython. Sampling, not proof: a clean batch bounds nothing outside "
          "the worlds that were run. Worlds are small (<=3 pools x <=3 workers, <=8 nodes per graph, <=6 "
-         "invocations); preemptive runs are not generated.")
+         "invocations); preemptive runs are not generated. A share of the runs receives its workload in windows from a "
+         "cumulative loader (late delivery, fault kind F4).")
 
 
 def _t(level, technique, ref="DESIGN.md section 4", note=_NOTE):
@@ -45,21 +46,21 @@ TEXT = {
               "detection without wall clocks) and post-run liveness oracles: SIMULATOR_END exists and is not "
               "after the timeout, no crash, feasible worlds under EDF/FIFO/LSF complete every task before a "
               "(checked) generous timeout, never an end while runnable work remains.",
-              "deterministic simulation: step watchdog + bounded-liveness oracle, zero-length tasks, overrun, timeout cuts"),
+              "deterministic simulation: step watchdog + bounded-liveness oracle, zero-length tasks, overrun, timeout cuts, workload delivered in windows"),
     "C06": _t("Seeded exploration; every task state change (through the lifecycle API or directly) is checked "
               "against the legal state machine, and after the run cancellation is checked to be closed downstream "
               "(dead descendants never started and are CANCELLED with a row) and graph completion reported exactly "
               "when all sinks completed.",
               "deterministic simulation: state-machine monitor + downstream-closure oracle, chaos cancels/retractions, deadline enforcement, drop-skipped"),
     "C07": _t("Seeded exploration of graphs with (nested) conditional/terminal pairs; per completed conditional: "
-              "exactly one child released, never a zero-probability one, untaken branches cancelled and never "
+              "exactly one child released (or deferred behind an unfinished side input), never a zero-probability one, untaken branches cancelled and never "
               "started up to the matching terminal, the join runs once after the taken branch.",
               "deterministic simulation: post-run branch oracle over many random draws"),
     "C08": _t("Seeded exploration; the CSV rows and the SIMULATOR_END counters are compared with the monitors' own "
               "record of what happened (times, deadlines, pools, resources, scheduler counts), then the same rows "
               "are fed to the project's CSVReader whose reconstruction must match; timeout cuts act as crash points, "
               "sampled and, for small base worlds, enumerated at every microsecond of the base run.",
-              "deterministic simulation: trace-vs-ground-truth oracle + project CSVReader on every trace"),
+              "deterministic simulation: trace-vs-ground-truth oracle + project CSVReader on every trace, timeout cuts as crash points, workload delivered in windows"),
     "C04": _t("Seeded operation histories (allocate / allocate_multiple / deallocate / place / place-in-batch / "
               "remove / load / evict / copy / deepcopy, with refused requests injected at arbitrary points) on "
               "Resources, Worker and WorkerPool checked operation by operation against an integer reference ledger, "
@@ -82,7 +83,7 @@ TEXT = {
               "tasks are cancelled (EDF, FIFO, TetriSched-CPLEX) or left unplaced (ILP task-by-task, TetriSched-Gurobi) "
               "and never placed; planners never choose start + runtime > deadline, also on the F6 alternative "
               "solutions; Clockwork included; post-run: with exact runtimes every task that started at its planned time "
-              "completes by its deadline.",
+              "completes by its deadline. TetriSched-CPLEX is also run with its batching option on Clockwork-style request streams.",
               "deterministic simulation: per-invocation admission/deadline oracle over solver-choice perturbation"),
     "C13": _t("Seeded exploration of EDF/FIFO/LSF runs on single-worker pools; at each real invocation a "
               "first-principles ledger replays the placed tasks of higher-or-equal priority and requires that an "
@@ -110,7 +111,7 @@ TEXT = {
     "C18": _t("Seeded exploration; every real Workload.get_schedulable_tasks call and every task-completion "
               "notification in a run is compared with a reference frontier built from the shadow task states and "
               "the spec's parent map.",
-              "deterministic simulation: per-call frontier oracle + completion-release oracle"),
+              "deterministic simulation: per-call frontier oracle + completion-release oracle + monotonicity probes on live states, workload delivered in windows"),
     "C19": _t("Seeded generation of descriptions rendered as YAML/JSON and loaded by the real loaders, compared "
               "field by field with the spec; release times per policy, fresh isomorphic copies per invocation and "
               "deadline = release + critical-path/SLO base stretched within variance and bounds (base recomputed by "
